@@ -218,6 +218,9 @@ def consensus(
     components = dict()
 
     for pos, vote in votes.items():
+        if phased[pos] is not None and len(phased[pos].phase) == 2:
+            # already phased variants are kept as they are (see below)
+            continue
         best_allele, phase_set, fraction, score = best_candidate(vote)
         components[pos] = phase_set
         if phased[pos] is None:
@@ -236,10 +239,10 @@ def consensus(
         super_reads[1].append(
             Variant(pos, allele=id_to_allele[pos][1 - best_allele], quality=score)
         )
-    # Keep the phase of variants that are already phased in the input but received no votes
+    # Keep the phase of variants that are already phased in the input
     # (the VCF writer removes the existing phasing of every record before it adds the new one)
     for pos, phase in phased.items():
-        if phase is not None and pos not in votes and len(phase.phase) == 2:
+        if phase is not None and len(phase.phase) == 2:
             components[pos] = phase.block_id - 1
             for read, allele in zip(super_reads, phase.phase):
                 read.append(Variant(pos, allele=allele, quality=phase.quality or 0))
